@@ -15,5 +15,6 @@ INVARIANT ComponentsPartition
 INVARIANT FastEqual
 INVARIANT SinkDirectionality
 INVARIANT LiftTheorem
+INVARIANT ReductTheorem
 INVARIANT MetaFast
 INVARIANT Export
